@@ -1,4 +1,4 @@
-import IcyVerif.Lemmas.TermStep
+import IcyVerif.Lemmas.TermWrap
 /-! # C09 — cursor and fixed-grid geometry stay consistent under any stream
 Theorems for the ANSI emulation (all four music options, with or without BS as control character) on a terminal
 buffer with scrollback.  `run` feeds a whole stream through `step`, one character at a time, so quantifying over
@@ -6,7 +6,7 @@ all streams covers every prefix.  A stream "requests a text-area resize" iff `re
 (`CSI 8;h;w t`, also when executed from inside a macro).
 
 Full statement of the property (every text-mode emulation; Viewdata/Mode 7 keep their 40x24 page):
-the theorems below cover ANSI; Avatar, PCBoard, Ctrl-A, Renegade, PETSCII, ATASCII, Viewdata, Mode 7 are
+the theorems below cover ANSI, Avatar, PCBoard, Ctrl-A and Renegade; PETSCII, ATASCII, Viewdata, Mode 7 are
 covered by the oracle run of `harness/src/c09.rs` only (exploration, no theorem). -/
 namespace IcyVerif.C09
 open IcyVerif.Term
@@ -50,9 +50,23 @@ theorem margins_inside_screen (w h : Int) (hw1 : 1 ≤ w) (hw2 : w ≤ 132) (hh1
   rw [hrun] at hg
   exact ⟨hg.1.mtb, hg.1.mlr⟩
 
+/-- the same for Avatar, PCBoard, Ctrl-A and Renegade (state machines in front of the ANSI parser) -/
+theorem cursor_in_screen_wrapped (e : Emu) (w h : Int) (hw1 : 1 ≤ w) (hw2 : w ≤ 132) (hh1 : 1 ≤ h) (hh2 : h ≤ 60)
+    (o : Nat → Orc) (bytes : List Char) (st : WSt)
+    (hrun : wrun e o (initW w h) bytes = .ok st) (hres : st.inner.p.resized = false) :
+    0 ≤ st.inner.c.x ∧ st.inner.c.x < st.inner.s.tw ∧ st.inner.s.fv ≤ st.inner.c.y ∧
+      st.inner.c.y < st.inner.s.fv + st.inner.s.th := by
+  have hg := wrun_good e o bytes (initW w h) (initSt_good w h hw1 hw2 hh1 hh2)
+  rw [hrun] at hg
+  obtain ⟨_, hc, hi⟩ := hg
+  obtain ⟨_, i2, i3, i4⟩ := hi hres
+  exact ⟨hc.1, i2, i3, i4⟩
+
 /-! non-vacuity: a stream that fills the scrollback, sets margins, tabs beyond the last stop and restores a
     stale saved position ends on the screen (the pinned tree left the cursor outside in each of these) -/
 def demo : List Char := "\x1b[s\n\n\n\n\n\n\x1b[2;3r\x1b[99Y\x1b[u\x1b[!pA".toList
+example : (match wrun .avatar (fun _ => { lineLen := 0, extOk := true }) (initW 80 25) "\x16\x08\u00c8\u00c8".toList with
+    | .ok w => (w.inner.c.x, w.inner.c.y) | .error _ => (-1, -1)) = (79, 24) := by decide +kernel
 example : (match run { musicOpt := 0, bsCtrl := true } (fun _ => { lineLen := 0, extOk := true }) (initSt 7 4) demo with
     | .ok st => (st.c.x, st.c.y, st.s.fv, st.s.bh) | .error _ => (-1, -1, -1, -1)) = (1, 3, 3, 7) := by decide +kernel
 
